@@ -1,5 +1,55 @@
+"""C20: block, length and sample accounting is exact and consistent across helpers.
+Accounting.tla (closed forms over integers/rationals) + the recording step machine of Backend.tla."""
+import os
+
+from .. import tlc
+from ..adapters import accounting as ad
 from . import c02
 
 
 def run(ctx):
-    c02.run_for(ctx, "C20", check_bytes=False)
+    ctx.assume("rational arithmetic from TLC (time per block, durations as (k + rn/rd) blocks); floats compared at 1e-12..1e-14 "
+               "relative; sample rates 1024, 1e6, 2.5e6, 187.5e6 and x16 (= 3e9) by scaling")
+    res = tlc.run("Accounting", "Accounting_MC.cfg", ctx.outdir, workers=8, coverage=True)
+    ctx.add_tlc(res, "Accounting_MC", "M")
+    ctx.tlc_violation(res, "Accounting", "Accounting_MC")
+    if res.coverage.get("Compute", (0, 0))[1] == 0:
+        raise RuntimeError("vacuity: Compute never taken")
+    cfg = tlc.cfg_with("Accounting_Gen.cfg", {}, ctx.outdir)
+    if ctx.quick():
+        res = tlc.run("Accounting", cfg, ctx.outdir, workers=4, simulate=150, depth=5, seed=ctx.seed)
+    else:
+        res = tlc.run("Accounting", cfg, ctx.outdir, workers=1)
+    ctx.add_tlc(res, "Accounting_Gen", "R-generate")
+    if not res.emitted:
+        raise RuntimeError("Accounting_Gen produced nothing")
+    work = os.path.join(ctx.outdir, "acc")
+    os.makedirs(work, exist_ok=True)
+    seen = set()
+    for n, out in enumerate(res.emitted):
+        c = out["cfg"]
+        key = tuple(sorted(c.items()))
+        if key in seen:
+            continue
+        seen.add(key)
+        scale = 16 if (c["rate"] == 187500000 and n % 2 == 0) else 1
+        ctx.mark(key + (scale,))
+        if len(ctx.samples) < 1:
+            ctx.sample({"leg": "R", "expected": out})
+        ctx.traces += 1
+        try:
+            ad.check(out, scale, work, False)
+            ctx.steps += 14
+            ad.check_fine(out, scale)
+            ctx.steps += 3
+            if c["B"] <= 16 or (c["blocks"] <= 2 and c["mult"] <= 2):
+                ad.check_recording(out, scale, work)
+                ctx.steps += 1
+        except ad.Div as d:
+            args = dict(c)
+            args.update({"action": d.field, "scale": scale})
+            ctx.violation("Accounting", "replay:" + d.field, args, {"expected": d.expected, "observed": d.observed, "spec": out})
+    c02.run_for(ctx, "C20", num_quick=60, num_thorough=1500, check_bytes=False)
+    ctx.notes["rule"] = ("configurations (rate, branches, taps, channels, antennas, pols, bits, block multiplier, blocks) from "
+                         "Accounting.tla with exact expectations (12 durations each, 3 fine-channelisation cases, one recording "
+                         "by duration) + Backend.tla recordings; distinct = distinct configurations")
